@@ -53,6 +53,16 @@ func jqStr(j *calendar.JieQi) string {
 	return j.GetName() + "@" + j.GetSolar().ToYmdHms()
 }
 
+// c03LonTol: what the low-precision theory R3 can decide. Its published accuracy is 0.01 deg near J2000; the terms it
+// neglects grow with the cube of the time from J2000 (T in centuries), reaching a few tenths of a degree at the ends
+// of the range. The tolerance is that envelope, not a fit to the library: 0.02 deg + 0.5 deg * (|T|/80)^3.
+func c03LonTol(y int) float64 {
+	t := math.Abs(float64(y)-2000) / 100
+	return 0.02 + 0.5*math.Pow(t/80, 3)
+}
+
+var c03MaxLonOff float64
+
 func runC03(w *W) {
 	perturbCache = true
 	if bad := r3SelfTest(); len(bad) > 0 {
@@ -64,7 +74,7 @@ func runC03(w *W) {
 			c03Year(w, y, &maxRoot, &maxR3)
 		}
 	}
-	w.R.Notes = append(w.R.Notes, fmt.Sprintf("shard %v: max root residual %.4f arcsec, max R3 offset %.2f min", w.Shard.Ranges, maxRoot, maxR3))
+	w.R.Notes = append(w.R.Notes, fmt.Sprintf("shard %v: max root residual %.4f arcsec, max R3 offset %.2f min, max R3 longitude offset with the library's delta-T %.4f deg", w.Shard.Ranges, maxRoot, maxR3, c03MaxLonOff))
 	// daily term names
 	walkLunar = true
 	sweepDays(w, "C03", func(d *Day, prev *Day) {
@@ -235,6 +245,27 @@ func c03Year(w *W, y int, maxRoot, maxR3 *float64) {
 			if offMin > margin {
 				w.Viol(fmt.Sprintf("C03:independent:%d:%s", y, t.Key), fmt.Sprintf("year %d %s at %s: the independent ephemeris puts the sun %.1f min of time from %g deg (margin %.1f min; delta-T lib %.0f s, E-M %.0f s)", y, t.Key, t.S.ToYmdHms(), offMin, wantLon, margin, dtLib, dtEM), y)
 			}
+		}
+	}
+	// (c) independent longitude over the whole range, with the library's own delta-T (the far past and future differ
+	// between delta-T models by hours, which is not C03's subject): the low-precision solar theory R3 must put the sun
+	// within c03LonTolDeg of the term's multiple of 15 degrees at the reported instant
+	for i, t := range terms {
+		if i >= len(jds) {
+			break
+		}
+		wantLon := math.Mod(255+15*float64(i), 360)
+		t8 := jds[i] - 2451545.0
+		tt := t8 - 1.0/3
+		for k := 0; k < 4; k++ {
+			tt = t8 - 1.0/3 + ShouXingUtil.VerifDtT(tt)
+		}
+		off := math.Abs(angDiffDeg(r3SunLon(tt+2451545.0), wantLon))
+		if off > c03MaxLonOff {
+			c03MaxLonOff = off
+		}
+		if off > c03LonTol(y) {
+			w.Viol(fmt.Sprintf("C03:independent-longitude:%d:%s", y, t.Key), fmt.Sprintf("year %d %s at %s: the independent solar theory (with the library's delta-T) puts the sun %.3f deg from %g deg (tolerance %.3f deg)", y, t.Key, t.S.ToYmdHms(), off, wantLon, c03LonTol(y)), y)
 		}
 	}
 	// shared entries with the next year's table
